@@ -16,6 +16,10 @@ def ext_literals(F, f):
 
 def run(ctx):
     _run(ctx)
+    ctx.delegate("C15", ["C15.R0", "C15.R2"], "C08.routes",
+                 "pairs stay aligned after random access on the shape reader: it starts with an absolute seek and rewinds", floor=2)
+    ctx.delegate("C18", ["C18.poly"], "C08.sizes",
+                 "every shape type announces the size it emits, so the records (and with them the pairs) of every type read back", floor=13)
     ctx.delegate("C03", ["C03.stop"], "C08.seq",
                  "without an index the complete reader still returns every pair: the iteration ends exactly at the declared length and "
                  "the position counter advances by the size of each record", floor=3)
